@@ -76,6 +76,15 @@ fn real_main() -> i32 {
                 2
             }
         },
+        Some("life-one") => {
+            let doc: Value = serde_json::from_str(&std::fs::read_to_string(&args[2]).unwrap()).unwrap();
+            let cfg: lifecycle::LifeCfg = serde_json::from_value(doc["case"]["cfg"].clone()).unwrap();
+            let c = Ctx::new("C05", Tier::Quick);
+            let t0 = std::time::Instant::now();
+            let st = lifecycle::explore(&c, &cfg, 2).unwrap();
+            println!("states={} transitions={} real_calls={} took {:.2}s viol={:?}", st.states, st.transitions, st.real_calls, t0.elapsed().as_secs_f64(), c.violation_keys());
+            0
+        }
         Some("c09-pristine") => {
             props_purity::child_pristine(args[2].parse().unwrap_or(0), args[3].parse().unwrap_or(0));
             0
